@@ -462,16 +462,26 @@ def run(ctx):
         if not ok:
             ctx.violation("proceed-skips-halt-test", sp_file_line(rl.term(exb_).get("sp")), "a Proceed from the debugger can reach execute without the HALT test")
     # every resuming arm passes check_halt before changing the status
+    # the helper by role: the Option<()>-returning method of the debugger that every resuming arm calls (it may be handed the decoded
+    # instruction, or the machine state to decode the word at the PC itself)
     halt_checks = [n for n, f in prog.fns.items() if f.bkind == "fn" and n.startswith("lace::debugger::Debugger::")
-                   and f.d.get("output") == "core::option::Option<()>" and "SignificantInstr" in " ".join(f.d.get("inputs", []))]
-    ctx.need(len(halt_checks) == 1, "HALT check helper (Option<()> fn(Option<SignificantInstr>))")
+                   and f.d.get("output") == "core::option::Option<()>"
+                   and all(any(c == n and b in dbg.arm_region(disp, arms[a_]) for b, t, c in disp.calls()) for a_ in ("Continue", "StepOver", "StepInto", "StepOut"))]
+    ctx.need(len(halt_checks) == 1, "HALT check helper (the Option<()> method every resuming arm calls)")
     hc = halt_checks[0]
     hf = prog.fns[hc]
     ctx.analysed_fns.add(hc)
-    # helper: None exactly when instr == Some(Halt)
+    # helper: None exactly when the instruction at the PC is HALT
     htree = formula.decision(hf)
     hconds = [kit.resolve_promoteds(prog, c) for c in formula.tree_conditions(htree) if relevant(c)]
-    ok = len(hconds) == 1 and "Halt" in expr_str(hconds[0]) and "instr" in expr_str(hconds[0])
+    st_params = [i_ for i_ in range(1, hf.arg_count + 1) if "RunState" in hf.local_ty(i_)]
+    subject_ok = len(hconds) == 1 and ("instr" in expr_str(hconds[0]) and any("SignificantInstr" in x_ for x_ in hf.d.get("inputs", []))
+                                       or any(dbg.reads_live_word(hf, hf.expr(hf.term(b_)["a"], 14) if False else hconds[0], p_) for p_ in st_params for b_ in [0]))
+    if len(hconds) == 1 and not subject_ok and st_params:
+        # the condition is over a local that was decoded from the live word earlier in the helper
+        full = [hf.expr(hf.term(b_)["a"], 16) for b_ in sorted(hf.live_blocks()) if hf.term(b_)["k"] == "switch"]
+        subject_ok = any(dbg.reads_live_word(hf, e_, p_) for e_ in full for p_ in st_params)
+    ok = len(hconds) == 1 and "Halt" in expr_str(hconds[0]) and subject_ok
     ctx.oblig(ok, {"check_halt condition": [expr_str(c)[:120] for c in hconds]}, "instr == Some(Halt)")
     if not ok:
         ctx.violation("halt-helper-cond", hf.file_line(), "the HALT check helper tests %s" % [expr_str(c)[:120] for c in hconds])
@@ -492,6 +502,14 @@ def run(ctx):
             ee = disp.expr(disp.term(g)["args"][0], 14)
             e = expr_str(ee, 300)
             okk = dbg.reads_live_word(disp, ee, sp)
+            if not okk and st_params:
+                # the helper decodes the word itself: it must be handed the live machine state (the dispatcher's own RunState parameter)
+                okk = False
+                for a_ in disp.term(g)["args"]:
+                    x_ = disp.expr(a_, 6)
+                    while x_[0] in ("ref", "deref"):
+                        x_ = x_[1]
+                    okk = okk or (subject_ok and x_[0] == "arg" and x_[1] == sp)
             ctx.oblig(okk, None)
             if not okk:
                 ctx.violation("halt-check-arg|%s" % arm, sp_file_line(disp.term(g).get("sp")), "`%s` checks HALT on `%s`, not on the word at the current PC" % (arm, e[:120]))
